@@ -191,6 +191,36 @@ fn gen_custom_family(src: &mut Src) -> (Option<Desc>, MetricFamily, NFamily) {
             }
         }
     }
+    // the repeated-field setters replace what is there: call them twice (first with other contents)
+    if src.chance(60) {
+        let real: Vec<prometheus::proto::Metric> = mf.get_metric().to_vec();
+        if let Some(first) = real.first().cloned() {
+            mf.set_metric(vec![first.clone(), first]);
+        }
+        mf.set_metric(real);
+        for m in mf.mut_metric().iter_mut() {
+            if ty == NType::Histogram {
+                let (cnt, sum) = (m.get_histogram().get_sample_count(), m.get_histogram().get_sample_sum());
+                let b: Vec<prometheus::proto::Bucket> = m.get_histogram().get_bucket().to_vec();
+                let mut h = prometheus::proto::Histogram::default();
+                h.set_sample_count(cnt);
+                h.set_sample_sum(sum);
+                h.set_bucket(b.iter().rev().cloned().collect::<Vec<_>>());
+                h.set_bucket(b);
+                m.set_histogram(h);
+            }
+            if ty == NType::Summary {
+                let (cnt, sum) = (m.get_summary().sample_count(), m.get_summary().sample_sum());
+                let q: Vec<prometheus::proto::Quantile> = m.get_summary().get_quantile().to_vec();
+                let mut su = prometheus::proto::Summary::default();
+                su.set_sample_count(cnt);
+                su.set_sample_sum(sum);
+                su.set_quantile(q.iter().rev().cloned().collect::<Vec<_>>());
+                su.set_quantile(q);
+                m.set_summary(su);
+            }
+        }
+    }
     // exercise defaults: a family whose type / help was never set
     if src.chance(30) {
         let mut bare = MetricFamily::default();
